@@ -507,7 +507,7 @@ func checkCleared(p *core.Prog, r *core.Report, pi *poolInfo) {
 			if !isRet {
 				continue
 			}
-			call, isCall := ret.Results[0].(*ssa.Call)
+			call, isCall := unspill(ret, 0).(*ssa.Call)
 			if isCall {
 				if g := core.StaticCallee(call); g != nil && p.InSubject(g) && len(call.Call.Args) == 1 {
 					if ta, isTA := call.Call.Args[0].(*ssa.TypeAssert); isTA {
@@ -607,4 +607,43 @@ func checkCleared(p *core.Prog, r *core.Report, pi *poolInfo) {
 			r.Bad(rule, key, p.Pos(clearFn.Pos()), "a recycled Result keeps its previous "+strings.TrimPrefix(leaf, ".")+": the clearing function does not reset it on every path")
 		}
 	}
+}
+
+// unspill resolves a result that was spilled to a cell because the function has defers: the value
+// stored last to the cell (searching backwards from the return through single-predecessor chains).
+func unspill(ret *ssa.Return, idx int) ssa.Value {
+	v := ret.Results[idx]
+	ld, ok := v.(*ssa.UnOp)
+	if !ok || ld.Op != token.MUL {
+		return v
+	}
+	cell, ok := ld.X.(*ssa.Alloc)
+	if !ok {
+		return v
+	}
+	b := ret.Block()
+	for n := 0; n < 6 && b != nil; n++ {
+		for k := len(b.Instrs) - 1; k >= 0; k-- {
+			if st, ok := b.Instrs[k].(*ssa.Store); ok && st.Addr == ssa.Value(cell) {
+				return st.Val
+			}
+		}
+		if len(b.Preds) != 1 {
+			break
+		}
+		b = b.Preds[0]
+	}
+	// a single store in the whole function
+	var only ssa.Value
+	cnt := 0
+	for _, ref := range core.Refs(cell) {
+		if st, ok := ref.(*ssa.Store); ok && st.Addr == ssa.Value(cell) {
+			only = st.Val
+			cnt++
+		}
+	}
+	if cnt == 1 {
+		return only
+	}
+	return v
 }
